@@ -1,9 +1,11 @@
 SPECIFICATION TraceSpec
 CONSTANTS NC = 50 NI = 10 Delays = {1, 2, 3, 4} PassTimeouts = {0, 1, 2} Filters = {"all", "A"}
           Nesting = TRUE ReAdds = 1000000 ExtFut = TRUE ReapOwnOnly = TRUE LateCancel = TRUE
+          HScripts = {"none", "raise", "pop", "add"} CoHandlers = TRUE ClaimFirst = TRUE
 INVARIANT TraceAccepted
 INVARIANT TypeOK
 INVARIANT ExactlyOnce
+INVARIANT ClaimedOnce
 INVARIANT NoTimeoutAfterClaim
 INVARIANT OutstandingWillEnd
 INVARIANT TableAgrees
